@@ -233,6 +233,53 @@ def make_bd_stmt(c: dict, td: str, idx: int, sources: dict):
     raise HarnessError(f"no BD form for {c}")
 
 
+def make_yaml_cmd(c: dict, td: str, idx: int):
+    """The same statement as a record of the YAML form of the SB2.1 configuration (keys as the BD compiler emits them)."""
+    t = c["t"]
+
+    def opt(d: dict, key: str, m: int) -> dict:
+        if m:
+            d[key] = m
+        return d
+
+    if t == "load":
+        data = gen_bytes(c["s"], c["l"])
+        if c.get("form") == "blob" and c["l"] == 4:
+            return {"load": opt({"values": data.hex(), "address": c["a"]}, "load_opt", c["m"])}, ("load", c["a"], 4, data, c["m"] & 0xFFF)
+        name = f"src{idx}.bin"
+        with open(os.path.join(td, name), "wb") as f:
+            f.write(data)
+        return {"load": opt({"file": name, "address": c["a"]}, "load_opt", c["m"])}, ("load", c["a"], c["l"], data, c["m"] & 0xFFF)
+    if t == "fill":
+        d = {"pattern": c["p"], "address": c["a"]}
+        if not (c["l"] == 4 and not c.get("range")):
+            d["length"] = c["l"]
+        return {"fill": d}, ("fill", c["a"], 4 if "length" not in d else c["l"], c["p"])
+    if t == "jump":
+        d = {"address": c["a"]}
+        if c["arg"] or c.get("explicit_arg"):
+            d["argument"] = c["arg"]
+        if c.get("sp") is not None:
+            d["spreg"] = c["sp"]
+        return {"jump": d}, ("jump", c["a"], c["arg"], c.get("sp"))
+    if t == "erase":
+        if c["f"]:
+            return {"erase": opt({"address": 0, "flags": c["f"]}, "mem_opt", c["m"])}, ("erase", 0, 0, c["f"], c["m"] & 0xFFF)
+        return {"erase": opt({"address": c["a"], "length": c["l"]}, "mem_opt", c["m"])}, ("erase", c["a"], c["l"], 0, c["m"] & 0xFFF)
+    if t == "mem_enable":
+        return {"enable": {"mem_opt": c["m"], "address": c["a"]}}, ("mem_enable", c["a"], 4, c["m"] & 0xFFF)
+    if t == "prog":
+        if c.get("form") == "blob":
+            blob = struct.pack("<I", c["w1"]) + (struct.pack("<I", c["w2"]) if c["w2"] else b"")
+            return {"load": {"load_opt": c.get("kw", "fuse"), "values": blob.hex(), "address": c["a"]}}, ("prog", c["a"], c["w1"], c["w2"], 4, 1 if c["w2"] else 0)
+        return {"load": {"load_opt": c.get("kw", "fuse"), "pattern": c["w1"], "address": c["a"]}}, ("prog", c["a"], c["w1"], 0, 4, 0)
+    if t == "version_check":
+        return {"version_check": {"ver_type": c["k"], "fw_version": c["v"]}}, ("version_check", c["k"], c["v"])
+    if t in ("keystore_to_nv", "keystore_from_nv"):
+        return {t: {"mem_opt": c["m"], "address": c["a"]}}, (t, c["a"], c["m"])
+    raise HarnessError(f"no YAML form for {c}")
+
+
 def spsdk_cmd_tuple(cmd) -> tuple:
     """What SPSDK's parser recovered, in the ROM model's vocabulary (through public attributes)."""
     K = S.cmds
@@ -342,6 +389,8 @@ class Run:
             opts.append("zeroPadding = True;")
         if self.expected_ts is None:
             self.expected_ts = (int(EPOCH + (CLOCK.now_us + CLOCK.wall_offset_us) / 1e6) - 946684800) * 1000000
+        if p["via_bd"] == "yaml":
+            return self.build_from_yaml(td, adv)
         sources: dict = {}
         body = []
         self.expected = []
@@ -381,6 +430,72 @@ class Run:
             if f.read() != self.rkth:
                 self.violation("rkth-output", "hash.bin", "the root-key-table hash written for fuse programming differs from the hash of the table as supplied")
         self.probe("built_from_bd_file")
+        return img
+
+    def build_from_yaml(self, td: str, adv: dict):
+        """The YAML form of the same configuration (what `nxpimage sb21 convert` writes): validated against the schema
+        by parse_sb21_config, then the same load_from_config."""
+        import json
+
+        p = self.plan
+        opts: dict = {"flags": 0x8 | (0x8000 if p.get("sha") else 0), "buildNumber": p["build"], "productVersion": p["pv"], "componentVersion": p["cv"], "secureBinaryVersion": "2.1"}
+        if adv.get("dek") is not None:
+            opts["dek"] = gen_bytes(adv["dek"], 32).hex()
+        if adv.get("mac") is not None:
+            opts["mac"] = gen_bytes(adv["mac"] + 1000, 32).hex()
+        if adv.get("nonce") is not None:
+            n = bytearray(gen_bytes(adv["nonce"] + 2000, 16))
+            n[9] &= 0x7F
+            n[13] &= 0x7F
+            n[0] |= 0x10
+            if adv.get("nonce_high"):
+                n[12:16] = (0xFFFFFFF0).to_bytes(4, "little")
+            opts["nonce"] = bytes(n).hex()
+        if adv.get("timestamp") is not None:
+            opts["timestamp"] = adv["timestamp"]
+        if adv.get("zero_padding"):
+            opts["zeroPadding"] = True
+        sections = []
+        self.expected = []
+        k = 0
+        for s_ in p["sections"]:
+            cmds = []
+            exp = []
+            for c in s_["cmds"]:
+                rec, tup = make_yaml_cmd(c, td, k)
+                k += 1
+                cmds.append(rec)
+                exp.append(tup)
+            sections.append({"section_id": s_["uid"], "commands": cmds})
+            self.expected.append((s_["uid"], exp))
+        key = p["key"]
+        kdir = os.path.join(GOLDEN, "keys")
+        roots = [os.path.join(kdir, f"root_k{i}_signed_cert0_noca.der.cert") for i in range(key["nroots"])]
+        cb_doc = {"mainRootCertId": key["used"], "imageBuildNumber": p["build"] & 0xFFFF}
+        for i, r_ in enumerate(roots):
+            cb_doc[f"rootCertificate{i}File"] = r_
+        with open(os.path.join(td, "cert_block.yaml"), "w") as f:
+            json.dump(cb_doc, f)
+        cfg_doc = {"family": "rt5xx", "certBlock": "cert_block.yaml", "containerOutputFile": "out.sb2", "options": opts, "sections": sections, "mainRootCertId": key["used"], "containerKeyBlobEncryptionKey": "kek.txt", "signPrivateKey": os.path.join(kdir, f"k{key['used']}_cert0_2048.pem")}
+        for i, r_ in enumerate(roots):
+            cfg_doc[f"rootCertificate{i}File"] = r_
+        path = os.path.join(td, "image.yaml")
+        with open(path, "w") as f:
+            json.dump(cfg_doc, f)  # (JSON is YAML)
+        with open(os.path.join(td, "kek.txt"), "w") as f:
+            f.write(self.kek.hex())
+        try:
+            cfg = S.BootImageV21.parse_sb21_config(path)
+        except S.SPSDKError as exc:
+            raise HarnessError(f"the generated YAML configuration was refused by the schema: {exc}") from exc
+        img = S.BootImageV21.load_from_config(config=cfg, key_file_path=os.path.join(td, "kek.txt"), signing_certificate_file_paths=[roots[key["used"]]], root_key_certificate_paths=roots, rkth_out_path=os.path.join(td, "hash.bin"), search_paths=[td])
+        self.signed = True
+        table = bytearray(128)
+        for i, pth in enumerate(roots):
+            nums = S.Certificate.load(pth).cert.public_key().public_numbers()
+            table[32 * i : 32 * i + 32] = hashlib.sha256(nums.n.to_bytes((nums.n.bit_length() + 7) // 8, "big") + nums.e.to_bytes((nums.e.bit_length() + 7) // 8, "big")).digest()
+        self.rkth = hashlib.sha256(bytes(table)).digest()
+        self.probe("built_from_yaml_file")
         return img
 
     def build(self):
@@ -935,7 +1050,7 @@ def gen_cmd(rng: random.Random) -> dict:
 
 def to_bd_plan(plan: dict, rng: random.Random) -> None:
     """Rewrites a plan into one that a BD command file can express (SB2.1, four-root key set, BD statement forms)."""
-    plan["via_bd"] = True
+    plan["via_bd"] = "yaml" if rng.random() < 0.35 else True
     plan["version"] = "2.1"
     plan["signed"] = True
     nroots = rng.randint(1, 4)
